@@ -30,4 +30,32 @@ var configs = map[string]propCfg{
 			"Non-trivial = a diagnostic; distinct by checker x normalised message x token class at the position.",
 		Assumptions: []string{wellTyped},
 	},
+	"C02": {
+		Quick:    tierCfg{Shards: 8, Checks: 250, Limit: qLimit},
+		Thorough: tierCfg{Shards: 16, Checks: 4000, Limit: tLimit},
+		Floor:    100,
+		Rule: "programs as in C01 plus import-heavy files (2-6 packages each imported 1-3 times under different names in a drawn order, several imports shadowed at once). " +
+			"Each program is analysed 4x by the long-lived set, once after a fresh re-parse/type-check, once by a fresh hand-written set and (1 case in 40) by a completely fresh 107-checker set; " +
+			"the ordered diagnostics (line, column, offset, text, fix range, fix bytes) of every checker must be identical; GetCheckersInfo order must be stable. " +
+			"Non-trivial = some checker produced >= 2 diagnostics in one file (otherwise order cannot vary); distinct by source hash.",
+		Assumptions: []string{wellTyped, "a map-order dependence with >= 2 keys escapes 6 repetitions with probability <= 2^-5 per case"},
+	},
+	"C03": {
+		Quick:    tierCfg{Shards: 8, Checks: 60, Limit: qLimit},
+		Thorough: tierCfg{Shards: 16, Checks: 1000, Limit: tLimit},
+		Floor:    50,
+		Rule: "histories: a pool of 2-6 generated packages, a long-lived set (67 hand-written + 0-6 drawn embedded-rule checkers; all 107 in 1 case of 20), 2-30 (package,file) visits in drawn order with repeats, " +
+			"driven exactly like the CLI (SetPackageInfo on package change, SetFileInfo, Check). Oracle: every visit equals a freshly created set on the same file. " +
+			"Non-trivial = a visit in which a checker with per-file scratch state fired after an earlier visit with diagnostics; distinct by pool+visit sequence.",
+		Assumptions: []string{wellTyped, "the fresh baseline uses the same syntax-tree objects (tree mutation is C05's subject)"},
+	},
+	"C05": {
+		Quick:    tierCfg{Shards: 8, Checks: 120, Limit: qLimit},
+		Thorough: tierCfg{Shards: 16, Checks: 2500, Limit: tLimit},
+		Floor:    100,
+		Rule: "programs as in C01; the 107 checkers run in a drawn permutation; a reflective structural fingerprint of the *ast.File (every field, token, position, literal, comment, object link, node identity), " +
+			"a digest of types.Info, the shared Context fields and the registry metadata/parameters is compared before/after every single Check; then results are compared with registry order on a pristine re-parse. " +
+			"Non-trivial = (checker, program) pair in which the checker emitted a diagnostic (its suggestion-building path ran).",
+		Assumptions: []string{wellTyped, "fingerprint self-test (two dumps of an untouched tree are equal) runs in every case"},
+	},
 }
